@@ -462,6 +462,53 @@ fn run_case<T: Elem, U: Elem>(n: usize, extra_cap: usize, script: &[u64]) -> (Ve
             }
         }
     }
+    // ---- the infallible wrapper convert_vec_in_place on the same script (when no item returns Err): same
+    // outcome, same outputs, same calls and drops as try_convert_vec_in_place
+    if !refused && !script.iter().any(|c| c / 2 == 2) {
+        let first_log = log.clone();
+        LOG.with(|l| l.borrow_mut().clear());
+        CREATED_U.with(|l| l.borrow_mut().clear());
+        LAST_OUT.with(|l| l.set(None));
+        let before_oracle = PREV_ORACLE.with(|o| o.borrow().len());
+        SCRIPT.with(|s| *s.borrow_mut() = script.to_vec());
+        FREE_LOGGED.with(|f| f.set(false));
+        let mut v2: Vec<T> = Vec::with_capacity(n + extra_cap);
+        for i in 0..n {
+            v2.push(T::make(i as u64));
+        }
+        let res2 = catch_unwind(AssertUnwindSafe(|| {
+            truc_runtime::convert::convert_vec_in_place::<T, U, _>(v2, |t, u| match scripted::<T, U>(t, u) {
+                Ok(r) => r,
+                Err(_) => unreachable!(),
+            })
+        }));
+        IN_CONV.with(|c| c.set(false));
+        FREE_LOGGED.with(|f| f.set(false));
+        let enc2: Vec<u64> = match res2 {
+            Ok(out) => {
+                let mut e = vec![0, out.len() as u64];
+                e.extend(out.iter().map(|u| u.id()));
+                let mark = LOG.with(|l| l.borrow().len());
+                drop(out);
+                LOG.with(|l| l.borrow_mut().truncate(mark));
+                e
+            }
+            Err(p) => match p.downcast_ref::<u32>() {
+                Some(x) => vec![2, *x as u64],
+                None => vec![3, 0],
+            },
+        };
+        let log2: Vec<Ev> = LOG.with(|l| l.borrow().iter().filter(|e| !matches!(e, Ev::Free)).cloned().collect());
+        let log1: Vec<Ev> = first_log.iter().filter(|e| !matches!(e, Ev::Free)).cloned().collect();
+        let k = enc.iter().position(|x| *x == 99).unwrap_or(enc.len());
+        if enc2[..] != enc[..k] {
+            oracle.push(format!("{}: convert_vec_in_place gives {:?} where try_convert_vec_in_place gives {:?}", if enc[0] == 0 { "C08" } else { "C09" }, enc2, &enc[..k]));
+        } else if log2 != log1 {
+            oracle.push(format!("{}: convert_vec_in_place makes other calls / drops than try_convert_vec_in_place on the same script", if enc[0] == 0 { "C08" } else { "C09" }));
+        }
+        PREV_ORACLE.with(|o| o.borrow_mut().truncate(before_oracle));
+        LOG.with(|l| *l.borrow_mut() = first_log);
+    }
     // ---- function-level events in the model's encoding
     for e in &log {
         match e {
